@@ -136,11 +136,17 @@ fn err_json(out: &mut String, e: &ais::errors::Error) {
 struct Recorder {
     parsers: HashMap<u32, [AisParser; 3]>,
     with_dbg: bool,
+    linebuf: Vec<u8>,
 }
 
 impl Recorder {
     fn op_line(&mut self, out: &mut String, p: u32, dec: bool, b: &[u8]) {
         let with_dbg = self.with_dbg;
+        // every line is presented in the same read buffer, as a caller looping over an input would do
+        let lb = &mut self.linebuf;
+        lb.clear();
+        lb.extend_from_slice(b);
+        let b: &[u8] = &lb[..];
         let ps = self
             .parsers
             .entry(p)
@@ -370,6 +376,7 @@ fn main() {
     let mut rec = Recorder {
         parsers: HashMap::new(),
         with_dbg: std::env::var("AISOBS_DBG").map(|v| v == "1").unwrap_or(false),
+        linebuf: Vec::with_capacity(1 << 17),
     };
     let mut out = String::with_capacity(4096);
     for line in input.lines() {
